@@ -277,6 +277,13 @@ def check(prop, tier, seed):
     rl = ['%s: %s' % (u['name'], m_[:160]) for u in units for m_ in u.get('rlimit', [])]
     if rl and not mine:
         raise Undecided('solver resource limit: ' + rl[0])
+    # modular reasoning: if a function this property's units contain no longer meets a contract (even one labelled for
+    # another property), callers were verified against a contract that does not hold, so this property is not established
+    # either -- but it is not shown violated: undecided
+    if others and not mine and not os.environ.get('VERIF_IGNORE_OTHER'):
+        o = others[0]
+        raise Undecided('a contract in unit %s no longer holds (%s; labelled %s): the proof of %s may rest on it'
+                        % (o['unit'], o['obligation'][:140], ','.join(o['tags']), prop))
     # vacuity
     canaries = []
     canary_units = cfg['units'] if tier == 'thorough' else cfg['units'][:1] if cfg.get('canary_quick', True) else []
